@@ -370,6 +370,41 @@ def c20(res, rng, ctx):
                     break
 
 
+def c20_many_data(res, rng, ctx):
+    """pole-figure densities of LARGE data sets (10^4.6 ... 10^5.3 directions, a small counting grid): finite, non-negative, mean one
+    over the grid, and independent of the sign of each datum for axial data - whatever internal path large problems take"""
+    from pydrex import stats as S
+
+    for n in ([40000, 170000] if not ctx["thorough"] else [7000, 40000, 80000, 170000, 400000]):
+        d = rng.normal(size=(n, 3)) * np.array([1.0, 0.6, 0.3])      # a girdle-ish, clearly non-uniform distribution
+        d /= np.linalg.norm(d, axis=1)[:, None]
+        sg = rng.choice([-1.0, 1.0], size=n)
+        gs = 21 if n > 50000 else 31
+        for kern in (("exponential_kamb", "linear_inverse_kamb") if not ctx["thorough"] else tuple(S.SPHERICAL_COUNTING_KERNELS)):
+            for kw in (({}, {"σ": 3}) if kern != "schmidt_count" else ({},)):
+                rep = {"n_data": n, "gridsteps": gs, "kernel": kern, "kwargs": {k: v for k, v in kw.items()}}
+                try:
+                    with np.errstate(all="ignore"):
+                        _, _, o1 = S.point_density(d[:, 0], d[:, 1], d[:, 2], gridsteps=gs, kernel=kern, **kw)
+                        _, _, o2 = S.point_density(sg * d[:, 0], sg * d[:, 1], sg * d[:, 2], gridsteps=gs, kernel=kern, **kw)
+                except Exception as e:  # noqa: BLE001
+                    res.violation(f"C20:api:point_density[{kern}]:many_data:raises:{type(e).__name__}", f"{n} data: point_density raised {type(e).__name__}: {str(e)[:100]}", rep)
+                    continue
+                res.evaluations += 2
+                res.count(f"apirobust:point_density:n_data={n}")
+                o1, o2 = np.asarray(o1, float), np.asarray(o2, float)
+                if not np.isfinite(o1).all() or (o1 < -1e-12).any():
+                    res.violation(f"C20:api:point_density[{kern}]:many_data:not_finite_nonnegative", f"{n} data: the density grid has non-finite or negative "
+                                  f"entries ({int((~np.isfinite(o1)).sum())} non-finite)", rep)
+                    continue
+                m_ = float(o1.mean())      # normalised to mean 1 BEFORE negative estimates are clipped to 0: >= 1 after, == 1 when nothing was clipped
+                if m_ < 1 - 1e-6 or (o1.min() > 0 and abs(m_ - 1) > 1e-6):
+                    res.violation(f"C20:api:point_density[{kern}]:many_data:mean", f"{n} data: mean of the density grid {m_!r} (min {float(o1.min())!r})", rep)
+                if not np.allclose(o1, o2, rtol=1e-7, atol=1e-7):
+                    res.violation(f"C20:api:point_density[{kern}]:many_data:axial_sign_dependence", f"{n} axial data: flipping the sign of some data changes "
+                                  f"the density by {float(np.abs(o1 - o2).max()):.3e}", rep)
+
+
 def c15_sizes(res, rng, ctx):
     """sample counts at and around 2**16 blocks: every output pair is an input pair, exactly as an independent emulation predicts"""
     from pydrex import stats as S
@@ -390,6 +425,25 @@ def c15_sizes(res, rng, ctx):
             bad = int(np.argmax(f[0] != F[0][order][idx])) if f.shape == (1, ns) else -1
             res.violation("C15:api:resample_orientations:sample_count_threshold", f"n_samples={ns}: output differs from the volume-weighted draw "
                           f"(first bad sample index {bad})", {"n_samples": ns, "fractions": F.tolist(), "seed": seed})
+
+
+    # the DEFAULT sample count is the grain count, however large the aggregate (just above 2**19, and 10**6 in the thorough tier)
+    for Mg in ([2**19 + 1] if not ctx["thorough"] else [2**19 + 1, 600000, 10**6]):
+        O = np.ascontiguousarray(_rot(rng, 64)[rng.integers(0, 64, size=Mg)].reshape(1, Mg, 3, 3))
+        F = rng.dirichlet(np.ones(Mg), size=1)
+        seed = int(rng.integers(0, 2**31))
+        o, f = S.resample_orientations(O, F, seed=seed)
+        res.evaluations += 1
+        res.count(f"apirobust:resample_orientations:default_n_samples:grains={Mg}")
+        if o.shape != (1, Mg, 3, 3) or f.shape != (1, Mg):
+            res.violation("C15:api:resample_orientations:default_sample_count", f"{Mg} grains, n_samples omitted: output shapes {o.shape}, {f.shape} "
+                          f"instead of one sample per grain", {"n_grains": Mg, "seed": seed})
+        else:
+            o2, f2 = S.resample_orientations(O, F, n_samples=Mg, seed=seed)
+            if not (np.array_equal(o, o2) and np.array_equal(f, f2)):
+                res.violation("C15:api:resample_orientations:default_sample_count", f"{Mg} grains: omitting n_samples differs from n_samples={Mg}",
+                              {"n_grains": Mg, "seed": seed})
+        del O, o, f
 
 
 # ------------------------------------------------------------------ C18
